@@ -474,3 +474,51 @@ def variant_test(facts, ev, is_subject):
 def is_param(v, n):
     """The n-th parameter itself or a reborrow of the reference it holds (`x` / `&*x`)."""
     return v == ('param', 0, n) or (v[0] == 'ref' and v[1] == ('deref', ('param', 0, n)))
+
+
+def event_values(e):
+    k = e['kind']
+    if k == 'cond':
+        return [e['expr']]
+    if k == 'call':
+        return list(e['args']) + [d for d in (e.get('derefs') or []) if d is not None]
+    if k == 'write':
+        return [e['place'], e['value']]
+    if k == 'assert':
+        return list(e.get('ops') or [])
+    if k == 'leave':
+        return [e['value']] if e.get('value') else []
+    return []
+
+
+def path_mentions(path, v):
+    return any(mentions(x, lambda y: y == v) for e in path.events for x in event_values(e)) or \
+        (path.ret is not None and mentions(path.ret, lambda y: y == v))
+
+
+def ok_payloads(path, call_id):
+    """Every expression that denotes the Ok payload of the Result returned by call #call_id, however it is unwrapped:
+    `r?`, `r.map_err(f)?` or `match r { Ok(x) => x, Err(..) => return .. }`."""
+    results = [('call', call_id)]
+    out = []
+    changed = True
+    calls = path.calls()
+    while changed:
+        changed = False
+        for c in calls:
+            if c['res'] == 'core::result::Result::map_err' and c['args'][0] in results and ('call', c['id']) not in results:
+                results.append(('call', c['id']))
+                changed = True
+    for r in results:
+        out.append(('fieldv', r, '0', 'Ok'))
+        for c in calls:
+            if c['decl'].endswith('Try::branch') and c['args'][0] == r:
+                out.append(('fieldv', ('call', c['id']), '0', 'Continue'))
+    return out
+
+
+def pre_havoc(v):
+    """For the value of a local after it was lent mutably to a call (`buf.clear()`): the value it held before."""
+    while v[0] == 'havoc' and len(v) > 3 and v[3] is not None:
+        v = v[3]
+    return v
